@@ -831,6 +831,13 @@ class Mailbox:
                 )
                 return
             except asyncio.CancelledError:
+                # We are being shut down (the mailbox was deleted.) The
+                # commands still in the queue are released by `shutdown()`;
+                # the one we had already taken off the queue is ours to
+                # release. It will see that the mailbox is gone.
+                #
+                if imap_cmd is not None and not imap_cmd.ready.is_set():
+                    imap_cmd.ready.set()
                 return
             except Exception as e:
                 # We ignore all other exceptions because otherwise the
